@@ -3,7 +3,9 @@ package props
 import (
 	"fmt"
 	"math"
+	"math/big"
 	"math/rand/v2"
+	"regexp"
 	"strings"
 
 	"github.com/ipld/go-ipld-prime"
@@ -238,8 +240,9 @@ func c14Selector(w *mon.W, s string, corpus *c14Corpus, origin string) {
 		// accepted although the grammar rejects it, and printed back verbatim: every part of the
 		// text must at least be reflected in the segments it was parsed to. Render the segments
 		// (as read through the accessors) and compare with the text, runs of '?' collapsed.
+		// (integers are compared by value: "[00]" is a spelling of "[0]", nothing is dropped)
 		t := rs.Text()
-		if collapseQ(t) != collapseQ(s) {
+		if normInts(collapseQ(t)) != normInts(collapseQ(s)) {
 			c["segments"] = fmt.Sprint(rs)
 			c["segments_rendered"] = t
 			w.Violate("sel/text-not-reflected-in-segments/"+c14Shape(s), fmt.Sprintf("Parse(%q) succeeds although the text is malformed; its segments %v render as %q: part of the input influences nothing", s, rs, t), c)
@@ -623,4 +626,18 @@ func collapseQ(s string) string {
 		s = strings.ReplaceAll(s, "??", "?")
 	}
 	return s
+}
+
+var intRun = regexp.MustCompile(`-?[0-9]+`)
+
+// normInts rewrites every run of digits (with an optional minus sign) in its canonical
+// decimal spelling, so that texts which differ only in leading zeros / "-0" compare equal.
+func normInts(s string) string {
+	return intRun.ReplaceAllStringFunc(s, func(m string) string {
+		n, ok := new(big.Int).SetString(m, 10)
+		if !ok {
+			return m
+		}
+		return n.String()
+	})
 }
